@@ -73,19 +73,15 @@ Definition best_rel (pairs : list (str * Q)) (result : option str) : Prop :=
                                  (forall p, In p post -> (snd p <= q)%Q)
   end.
 
-Fixpoint best_relb_some (m : str) (pre_max : option Q) (l : list (str * Q)) : bool :=
-  match l with
-  | [] => false
-  | (c, q) :: tl =>
-    let pre_ok := match pre_max with Some x => Qlt_bool x q | None => true end in
-    (str_eqb c m && Qlt_bool 0 q && pre_ok && forallb (fun p => Qle_bool (snd p) q) tl)
-    || best_relb_some m (match pre_max with
-                         | Some x => Some (if Qlt_bool x q then q else x)
-                         | None => Some q
-                         end) tl
-  end.
 Definition best_relb (pairs : list (str * Q)) (result : option str) : bool :=
   match result with
   | None => forallb (fun p => Qle_bool (snd p) 0) pairs
-  | Some m => best_relb_some m None pairs
+  | Some m =>
+    existsb (fun i => match nth_error pairs i with
+                      | Some (c, q) =>
+                        str_eqb c m && Qlt_bool 0 q
+                        && forallb (fun p => Qlt_bool (snd p) q) (firstn i pairs)
+                        && forallb (fun p => Qle_bool (snd p) q) (skipn (S i) pairs)
+                      | None => false
+                      end) (seq 0 (List.length pairs))
   end.
